@@ -5313,8 +5313,8 @@ class Restreamed(Subconstruct):
 
     Example::
 
-        Bitwise  <--> Restreamed(subcon, bits2bytes, 8, bytes2bits, 1, lambda n: n//8)
-        Bytewise <--> Restreamed(subcon, bytes2bits, 1, bits2bytes, 8, lambda n: n*8)
+        Bitwise  <--> Restreamed(subcon, bytes2bits, 1, bits2bytes, 8, lambda n: n//8)
+        Bytewise <--> Restreamed(subcon, bits2bytes, 8, bytes2bits, 1, lambda n: n*8)
     """
 
     def __init__(self, subcon, decoder, decoderunit, encoder, encoderunit, sizecomputer):
